@@ -71,6 +71,20 @@ def confirm(sid):
     return res
 
 
+def run_check(c, env):
+    """What ./check does: the seeded search, then the regression corpus of the property."""
+    import glob
+    p = subprocess.run(f"./target/release/flute-sim check {c} quick --no-evidence", shell=True, cwd=f"{EVAL}/sim", env=env, capture_output=True, text=True, timeout=3600)
+    rc = p.returncode
+    lines = [l for l in p.stdout.splitlines() if l.startswith("  rule=")]
+    for f in sorted(glob.glob(f"/verif/regressions/{c}-*.json")):
+        q = subprocess.run(f"./target/release/flute-sim replay {f}", shell=True, cwd=f"{EVAL}/sim", env=env, capture_output=True, text=True, timeout=600)
+        if q.returncode != 0:
+            rc = rc or q.returncode
+            lines += [l + " [regression corpus]" for l in q.stdout.splitlines() if l.startswith("  rule=")]
+    return rc, lines
+
+
 def evaluate(sid, checks):
     d = f"{OUT}/{sid}"
     setup_eval()
@@ -83,9 +97,8 @@ def evaluate(sid, checks):
         t = time.time()
         env = dict(ENV, VERIF_ROOT=f"{EVAL}/root")
         env.pop("TMPDIR", None)
-        p = subprocess.run(f"./target/release/flute-sim check {c} quick --no-evidence", shell=True, cwd=f"{EVAL}/sim", env=env, capture_output=True, text=True, timeout=3600)
-        lines = [l for l in p.stdout.splitlines() if l.startswith("  rule=")]
-        out[c] = {"exit": p.returncode, "wall_s": round(time.time() - t, 1), "rules": [l.strip()[:260] for l in lines[:4]]}
+        rc, lines = run_check(c, env)
+        out[c] = {"exit": rc, "wall_s": round(time.time() - t, 1), "rules": [l.strip()[:260] for l in lines[:4]]}
     sh(f"git -C {EVAL}/repo checkout -q -- .")
     return out
 
